@@ -440,6 +440,48 @@ func TestC07(t *testing.T) {
 					}
 					continue
 				}
+				// the empty name: an untyped document decodes to an Object that carries what was written, with or without an id
+				if nc.name == "" && strings.HasPrefix(entry, "json-") && !strings.HasSuffix(entry, "typeonly") {
+					for _, withID := range []bool{true, false} {
+						doc := map[string]interface{}{"summary": "marker summary"}
+						if withID {
+							doc["id"] = "https://example.com/things/untyped"
+						}
+						var got ap.Item
+						var derr error
+						pi := evSafe(func() {
+							switch entry {
+							case "json-top":
+								b, _ := json.Marshal(doc)
+								got, derr = ap.UnmarshalJSON(b)
+							case "json-item":
+								b, _ := json.Marshal(map[string]interface{}{"id": "https://example.com/outer", "type": "Note", "attachment": doc})
+								var outer ap.Item
+								if outer, derr = ap.UnmarshalJSON(b); derr == nil && outer != nil {
+									got = outer.(*ap.Object).Attachment
+								}
+							default:
+								b, _ := json.Marshal(map[string]interface{}{"id": "https://example.com/outer", "type": "Note", "tag": []interface{}{"https://example.com/first", doc}})
+								var outer ap.Item
+								if outer, derr = ap.UnmarshalJSON(b); derr == nil && outer != nil {
+									if tag := outer.(*ap.Object).Tag; len(tag) == 2 {
+										got = tag[1]
+									}
+								}
+							}
+						})
+						ukey := fmt.Sprintf("type (untyped) %s %s id=%v", entry, hooks, withID)
+						o, isObj := got.(*ap.Object)
+						switch {
+						case pi != nil:
+							r.Report("cells", cell, ukey+" panic@"+pi.Frame, pi.Value, cell)
+						case derr != nil || !isObj || o == nil:
+							r.Report("cells", cell, ukey+" not-an-object", fmt.Sprintf("an untyped document with a summary decoded to %T (err=%v), expected *Object", got, derr), cell)
+						case len(o.Summary) != 1 || string(o.Summary[0].Value) != "marker summary":
+							r.Report("cells", cell, ukey+" marker", "the summary that was written did not arrive: "+vocab.Dump(o), cell)
+						}
+					}
+				}
 				// names outside the vocabulary
 				if hooks == "unset" || nc.name != c07Foreign {
 					if err == nil && !vocab.IsEmptyItem(it) {
